@@ -106,7 +106,10 @@ def num_hole(vm, name, lo=None, hi=None, integral=False):
 
 def str_hole(vm, name, no_newline=True):
     s = z3.String(name)
-    if no_newline: vm.assume(z3.Not(z3.Contains(s, zs('\n'))))
+    if no_newline:
+        vm.assume(z3.Not(z3.Contains(s, zs('\n'))))
+        if not hasattr(vm, 'no_newline'): vm.no_newline = {}
+        vm.no_newline[s.get_id()] = s
     return s
 
 
